@@ -39,7 +39,7 @@ CONFIG = {
     'quick': {'shards': 16, 'cases': 3, 'timeout': 900, 'floor': 24, 'case_timeout': 0},
     'thorough': {'shards': 32, 'cases': 25, 'timeout': 3400, 'floor': 400, 'case_timeout': 0},
 }
-REQUIRED = ['variants_compared', 'digests_compared', 'discipline_batches_checked', 'init_state_table_entries', 'variant_fresh_process',
+REQUIRED = ['seed_zero_cases', 'variants_compared', 'digests_compared', 'discipline_batches_checked', 'init_state_table_entries', 'variant_fresh_process',
             'variant_global_rng', 'variant_history', 'variant_order_reversed', 'variant_order_random', 'variant_bh_history', 'variant_hashseed',
             'variant_multiprocessing', 'variant_same_sampler_twice', 'entry_point_agreements', 'specs_with_reorderable_nodes']
 
@@ -63,7 +63,9 @@ def gen_cases(ctx):
         names = [p['name'] for p in spec['params']]
         # a random creation order different from the given one (build() makes referenced parents first)
         perm = [str(x) for x in rng.permutation(names)]
-        yield {'spec': spec, 'seed': int(rng.integers(0, 2 ** 31 - 1)), 'bs': int(rng.choice([1, 4, 9])),
+        # edge-of-range seeds are legitimate integer seeds too (0 is falsy, 2**32-1 is the largest RandomState accepts)
+        seed = int(rng.choice([0, 0, 1, 2 ** 31 - 1, 2 ** 32 - 1])) if rng.random() < 0.3 else int(rng.integers(0, 2 ** 31 - 1))
+        yield {'spec': spec, 'seed': seed, 'bs': int(rng.choice([1, 4, 9])),
                'order_random': perm, 'k': int(rng.integers(1, 97)),
                'other': models.gen_spec(rng), 'bh_indices': [int(x) for x in rng.choice(5, size=8)] }
 
@@ -279,7 +281,7 @@ def run_shard(ctx):
             other = models.build(case['other'], name='other')
             other.generate(3, seed=5)
             other.generate(2)
-            elfi.Rejection(other['d'], batch_size=7, seed=case['seed'] + 1).sample(3, n_sim=21, bar=False)
+            elfi.Rejection(other['d'], batch_size=7, seed=(case['seed'] + 1) % (2 ** 31)).sample(3, n_sim=21, bar=False)
             elfi.SMC(other['d'], batch_size=10, seed=11).sample(5, quantiles=[0.5, 0.5], bar=False)
             res['history'] = execute(case, twice=True)
             created = [p['name'] for p in case['spec']['params']]
@@ -349,6 +351,7 @@ def _decide(ctx, case, inproc, child, ci):
     check_discipline(ctx, table, allres, case['spec'])
     indep = [p['name'] for p in case['spec']['params'] if not p.get('hier')]
     ctx.event('specs_with_reorderable_nodes', len(indep) >= 2)
+    ctx.event('seed_zero_cases', case['seed'] == 0)
     ctx.nontrivial(len(case['spec']['params']) + 1 >= 2)
 
 
